@@ -75,7 +75,7 @@ class Scratch:
             self._native[profile] = os.path.join(tgt, profile, "examples", "verif_driver")
         return self._native[profile]
 
-    def run_native(self, inputs, profile="debug", mdt=None, sleep_ms=None):
+    def run_native(self, inputs, profile="debug", mdt=None, sleep_ms=None, timeout=600):
         """inputs: list of str (or (str, mdt) pairs).  Returns list of dict key->str."""
         exe = self.native(profile)
         lines = []
@@ -87,7 +87,7 @@ class Scratch:
             lines.append(l)
         data = "\n".join(lines) + "\n"
         env = dict(os.environ, VERIF_DRIVER_SLEEP_MS=str(sleep_ms)) if sleep_ms else None
-        r = subprocess.run([exe], input=data, capture_output=True, text=True, timeout=600, env=env)
+        r = subprocess.run([exe], input=data, capture_output=True, text=True, timeout=timeout, env=env)
         if r.returncode != 0:
             raise Inconclusive("native driver crashed: rc=%s %s" % (r.returncode, r.stderr[-2000:]))
         out = []
